@@ -201,3 +201,50 @@ def stationary(T):
     b[-1] = 1
     pi, *_ = np.linalg.lstsq(A, b, rcond=None)
     return pi
+
+
+def large_metastable_counts(rng, symmetric=False, n_min=1000):
+    """Sparse count matrix with >= 1000 states (the size at which enspara
+    switches from the dense LAPACK eigen-solver to sparse ARPACK) made of a
+    few densely connected clusters joined by a handful of rare transitions,
+    i.e. a slowly mixing chain.  Returns a scipy csr matrix of integer
+    counts with a strongly connected transition graph."""
+    import scipy.sparse as sp
+    k = int(rng.integers(3, 7))
+    sizes = [int(rng.integers(n_min // k + 1, n_min // k + 80))
+             for _ in range(k)]
+    n = sum(sizes)
+    rows, cols, vals = [], [], []
+    pos = 0
+    offs = []
+    for s in sizes:
+        ids = np.arange(pos, pos + s)
+        offs.append(ids)
+        # ring (strong connectivity) + ~6 random partners per state
+        rows += list(ids) + list(ids)
+        cols += list(np.roll(ids, -1)) + list(np.roll(ids, 1))
+        vals += list(rng.integers(20, 200, size=2 * s))
+        part = rng.integers(0, s, size=(s, 6)) + pos
+        rows += list(np.repeat(ids, 6))
+        cols += list(part.ravel())
+        vals += list(rng.integers(5, 200, size=6 * s))
+        # self counts
+        rows += list(ids)
+        cols += list(ids)
+        vals += list(rng.integers(0, 500, size=s))
+        pos += s
+    # rare transitions between consecutive clusters, both directions
+    for a in range(k):
+        b = (a + 1) % k
+        for _ in range(int(rng.integers(1, 4))):
+            i = int(rng.choice(offs[a]))
+            j = int(rng.choice(offs[b]))
+            rows += [i, j]
+            cols += [j, i]
+            vals += [int(rng.integers(1, 4)), int(rng.integers(1, 4))]
+    C = sp.coo_matrix((np.array(vals, dtype=np.int64),
+                       (np.array(rows), np.array(cols))), shape=(n, n)).tocsr()
+    C.sum_duplicates()
+    if symmetric:
+        C = (C + C.T).tocsr()
+    return C
